@@ -368,6 +368,27 @@ def collect_scripts(lens, prop, faults, extra_hints=True):
     return out
 
 
+def collect_scripts_large(lens, prop):
+    """The collecting forms at boundary / large N (a path chosen by N must still obey the outcome rule): counts N-1, N,
+    N+1 and N+3, not fused, the hint kinds that matter, and a source panic at the first, a middle and the last poll."""
+    out = []
+    for n in lens:
+        scripts = [[1] * (n - 1), [1] * n, [1] * (n + 1), [1] * (n + 3), [1] * (n - 1) + [0, 1, 1], [1] * n + [0, 1]]
+        hints = [None, [0, -1], [n, n], [n + 1, -1], [0, n - 1], [0, 0]]
+        for sc in scripts:
+            for h in hints:
+                for op in ("try_from_iter", "from_iter", "try_boxed_from_iter", "boxed_from_iter"):
+                    st = {"op": op, "n": n, "okind": "box" if "boxed" in op else "arr", "script": sc}
+                    if h is not None:
+                        st["hint"] = h
+                    out.append({"case": op, "prop": prop, "ety": "tk", "steps": [st], "d": {"op": op, "n": n, "items": sum(1 for x in sc if x == 1), "len_script": len(sc), "hint": h}})
+        for cnt in (0, n // 2, n - 1, n):
+            for op in ("try_from_iter", "from_iter", "try_boxed_from_iter", "boxed_from_iter"):
+                st = {"op": op, "n": n, "okind": "box" if "boxed" in op else "arr", "script": [1] * cnt + [2], "hint": [0, -1]}
+                out.append({"case": op, "prop": prop, "ety": "tk", "steps": [st], "d": {"op": op, "n": n, "source_panics_at": cnt}})
+    return out
+
+
 @check("C08")
 def c08(tier, seed):
     c = Check("C08", tier, seed)
@@ -445,8 +466,10 @@ def c07(tier, seed):
     # truthful hints (the script's own remaining count) and larger N: the harness's own table
     scns += [s for s in collect_scripts([0, 1, 2, 3] if tier == "quick" else [0, 1, 2, 3, 4, 5, 8, 16], "C07", True) if s["d"].get("hint") is None or s["d"]["n"] > 3]
     c.cov["exhaustive"] = True
-    c.cov["bounds"] = {"model": "N in 0..%d, every 0/1 script of length <= N+3, a panic at every poll index, 8 hint kinds" % (3 if tier == "quick" else 5)}
+    c.cov["bounds"] = {"model": "N in 0..%d, every 0/1 script of length <= N+3, a panic at every poll index, 8 hint kinds" % (3 if tier == "quick" else 5),
+                       "large N": "N in %s: counts N-1, N, N+1, N+3, not fused, 6 hint kinds, source panics at 4 positions" % ([17, 33, 97] if tier == "quick" else [16, 17, 32, 33, 64, 65, 97, 1024])}
     c.conform(binary, with_etys(scns, ["tk", "zst"] if tier == "quick" else ["tk", "zst", "plain"]), "collect")
+    c.conform(binary, with_etys(collect_scripts_large([17, 33, 97] if tier == "quick" else [16, 17, 32, 33, 64, 65, 97, 1024], "C07"), ["tk", "plain"] if tier == "quick" else ["tk", "zst", "plain"]), "collect-large")
     if tier != "quick":
         c.neg("MC_Collect", "NEG_Collect_noprobe")
     return c.finish()
@@ -882,10 +905,22 @@ def c09(tier, seed):
     for n in (9, 10, 11):
         descs += [{"op": "append", "n": n, "arg": 0, "m": 0}, {"op": "prepend", "n": n, "arg": 0, "m": 0}, {"op": "pop_back", "n": n + 1, "arg": 0, "m": 0}, {"op": "pop_front", "n": n + 1, "arg": 0, "m": 0}]
         descs += [{"op": "split", "n": 12, "arg": n, "m": 0}, {"op": "concat", "n": n, "arg": 0, "m": 12 - n}, {"op": "remove", "n": 12, "arg": n, "m": 0}, {"op": "swap_remove", "n": 12, "arg": n, "m": 0}]
+    # boundary / large lengths: sparse instances of every length-changing operation (16->17, 32->33, 64->65,
+    # 1024->1025 and back, splits and concats of 33, 65 and 1025), every index class for remove / swap_remove
+    for n in (16, 32, 64, 1024):
+        descs += [{"op": "append", "n": n, "arg": 0, "m": 0}, {"op": "prepend", "n": n, "arg": 0, "m": 0}]
+    for n in (17, 33, 65, 1025):
+        descs += [{"op": "pop_back", "n": n, "arg": 0, "m": 0}, {"op": "pop_front", "n": n, "arg": 0, "m": 0}]
+        for op in ("remove", "swap_remove"):
+            for i in sorted({0, 1, n // 2, n - 2, n - 1, n, n + 1, 2147483647, 2000000000, 2000000000 + n - 1}):
+                descs.append({"op": op, "n": n, "arg": i, "m": 0})
+    for (n, k) in [(33, 16), (33, 1), (33, 32), (65, 32), (1025, 1024), (1025, 1)]:
+        descs += [{"op": "split", "n": n, "arg": k, "m": 0}, {"op": "concat", "n": k, "arg": 0, "m": n - k}]
     scns = [seq_scripts(d, "C09") for d in descs]
     c.cov["exhaustive"] = True
-    c.cov["bounds"] = {"model": "N in 0..8, every K <= N, every (N, M) with N+M <= 8, every index 0..N+1", "extra": "usize::MAX and 2^32 + j indices, lengths 9..12"}
-    c.conform(binary, with_etys(scns, ["tk", "zst", "plain", "tk24", "p1"]), "owned")
+    c.cov["bounds"] = {"model": "N in 0..8, every K <= N, every (N, M) with N+M <= 8, every index 0..N+1", "extra": "usize::MAX and 2^32 + j indices, lengths 9..12, 16/17, 32/33, 64/65, 1024/1025"}
+    # (the one-byte plain kind has only 255 identities)
+    c.conform(binary, [s for s in with_etys(scns, ["tk", "zst", "plain", "tk24", "p1"]) if not (s["d"]["n"] + s["d"].get("m", 0) > 120 and (s["ety"] == "p1" or (tier == "quick" and s["ety"] not in ("tk", "plain"))))], "owned")
     if tier != "quick":
         c.asan_pass("owned")
     rows = views_from_model(c, "MC_Views", lambda d: d["api"] in ("split_ref", "split_mut"))
@@ -1093,6 +1128,19 @@ def c17(tier, seed):
         scns.append({"case": "de-script", "prop": "C17", "ety": "tk", "steps": [st], "d": dict(d)})
         # the same source presented as a binary (not human-readable) format: the contract does not mention the flag
         scns.append({"case": "de-script-bin", "prop": "C17", "ety": "tk", "steps": [dict(st, hr=False)], "d": dict(d, human_readable=False)})
+    # scripted sources at boundary / large N: counts N-1 .. N+2, the hint kinds, an element error at the first,
+    # a middle and the last index
+    for n in ([17, 33, 97] if tier == "quick" else [16, 17, 32, 33, 64, 65, 97, 1024]):
+        for cnt in (n - 1, n, n + 1, n + 2):
+            for hints in (None, "truthful", [n, n], [n - 1, n - 1], [n + 1, n + 1], [n, 0]):
+                for hr in (True, False):
+                    st = {"op": "deserialize", "n": n, "src": "script", "script": [1] * cnt, "hr": hr}
+                    if hints is not None:
+                        st["hints"] = hints
+                    scns.append({"case": "de-script-large", "prop": "C17", "ety": "tk", "steps": [st], "d": {"op": "deserialize", "n": n, "items": cnt, "hints": hints, "human_readable": hr}})
+        for bad in (0, n // 2, n - 1):
+            st = {"op": "deserialize", "n": n, "src": "script", "script": [1] * bad + [3] + [1] * (n - bad - 1)}
+            scns.append({"case": "de-script-large", "prop": "C17", "ety": "tk", "steps": [st], "d": {"op": "deserialize", "n": n, "error_at": bad}})
     lens = [0, 1, 2, 3, 4, 8] if tier == "quick" else [0, 1, 2, 3, 4, 8, 12, 16, 33, 97]
     for n in lens:
         # serialisation: call sequence and real formats; then round trips through real formats
